@@ -113,8 +113,8 @@ Print Assumptions C10_expiry_exact.
     respect to exactly the votes submitted since the last vote-period end, no vote survives a period end,
     a prevote survives iff height < submit block + VotePeriod. *)
 Theorem C10_history_holds :
-  forall p e, wf_env e -> forall xs s,
-  P_hist p e (hs_rates s) (hs_votes s) (hs_prevotes s) (hist_obs true p e s xs).
+  forall p xs, Forall (fun ex => wf_env (fst ex)) xs -> forall s,
+  P_hist p (hs_rates s) (hs_votes s) (hs_prevotes s) (hist_obs true p s xs).
 Proof. exact hist_holds. Qed.
 Print Assumptions C10_history_holds.
 
@@ -130,15 +130,15 @@ Print Assumptions C10_period_end_clears_votes.
     two histories that differ arbitrarily before a period end (other votes, sub-quorum periods, silent
     validators, other stored rates) publish the same rates for the same subsequent steps. *)
 Theorem C10_price_depends_only_on_votes_of_its_period :
-  forall fx p e s1 x1 s1' ev1 s2 x2 s2' ev2 xs,
-  hist_step fx p e s1 x1 = Some (s1', ev1) -> is_period_last (hp_h x1) (p_vote_period p) = true ->
-  hist_step fx p e s2 x2 = Some (s2', ev2) -> is_period_last (hp_h x2) (p_vote_period p) = true ->
-  hist_events fx p e s1' xs = hist_events fx p e s2' xs.
+  forall fx p e1 s1 x1 s1' ev1 e2 s2 x2 s2' ev2 xs,
+  hist_step fx p e1 s1 x1 = Some (s1', ev1) -> is_period_last (hp_h x1) (p_vote_period p) = true ->
+  hist_step fx p e2 s2 x2 = Some (s2', ev2) -> is_period_last (hp_h x2) (p_vote_period p) = true ->
+  hist_events fx p s1' xs = hist_events fx p s2' xs.
 Proof. exact period_votes_only. Qed.
 Print Assumptions C10_price_depends_only_on_votes_of_its_period.
 
 Theorem C10_history_checker_sound :
-  forall p e l rs cast pvs, Pb_hist p e rs cast pvs l = true -> P_hist p e rs cast pvs l.
+  forall p l rs cast pvs, Pb_hist p rs cast pvs l = true -> P_hist p rs cast pvs l.
 Proof. exact Pb_hist_sound. Qed.
 Print Assumptions C10_history_checker_sound.
 
